@@ -65,8 +65,13 @@ fn features_of(text: &str, root: &syntax::SyntaxNode, ctx: &mut Ctx) -> bool {
 pub fn monitor_lossless(text: &str, ctx: &mut Ctx) {
     ctx.eval();
     ctx.current_text(text);
+    // same step budget as the totality monitor: a lexer/parser that stops consuming is reported with the input
+    // that does it instead of burning the unit's CPU budget
+    let budget = 64 * (text.len() as u64 + 8);
+    syntax::verif::arm(budget);
     let r = guard(|| {
         let parse = syntax::parse(text);
+        syntax::verif::disarm();
         let root = parse.syntax_node();
         let mut problems: Vec<(String, String)> = Vec::new();
         let len = text.len();
@@ -115,8 +120,17 @@ pub fn monitor_lossless(text: &str, ctx: &mut Ctx) {
             }
         }
         Err(pi) => {
-            // a panic is C02's business; for C01 it still means no tree reproduced the input
-            ctx.panic_violation("lossless:", &pi, text_case(text));
+            syntax::verif::disarm();
+            // a panic or a parse that never ends is C02's business; for C01 it still means no tree reproduced the input
+            if pi.is_budget() {
+                ctx.violation(
+                    "lossless:no-tree:non-progress",
+                    format!("step budget {} exhausted on a {}-byte input: the parse does not end, so no tree reproduces the input", budget, text.len()),
+                    text_case(text),
+                );
+            } else {
+                ctx.panic_violation("lossless:", &pi, text_case(text));
+            }
         }
     }
 }
